@@ -54,6 +54,10 @@ CHECKS = {
          "Exploration: every string of <=6 symbols over {a \\ < % > = # \"} that the reference scanner classifies as literal text in 6 frames, every string value of <=5 symbols over a 9-symbol alphabet as double- and back-quoted literal, and random interleavings of text, output tags, 21 kinds of silent tags and comments at top level and nested in if/else/for/function/block-helper bodies must render to exactly the expected part list.",
          "NUL and >=3 backslashes before <% are outside the statement; the reference scanner and the matcher are the trusted base.",
          "DESIGN.md §4 C02"),
+ "C01": ("exhaustive base x wrap x sink x tag route sweep over fixed hostile payloads + rapid route compositions to depth 4 with random payloads; entity-decoding output matcher (validity predicate)",
+         "Exploration: every base (17 ways a value reaches a template) and every single wrap x 20 emission sinks x 4 type tags x 20 payloads, 7 whole-collection sinks, and ~100k random compositions of up to 4 wraps with random payloads over the full byte alphabet; plain payloads must appear only entity-encoded and decode back exactly once, trusted payloads byte-identical exactly once.",
+         "The matcher accepts any correct entity spelling; helpers written for the test return template.HTML of their block.",
+         "DESIGN.md §4 C01"),
 }
 
 NOT_BUILT = "check not built yet in this session (see DESIGN.md §4 for its plan); will be claimed once its check is committed"
